@@ -1,0 +1,71 @@
+//
+// Verification hooks (off by default).  With -DNNG_VERIF the library calls
+// three functions that the test harness linking libnng.a must define.
+// Without it every macro below expands to nothing.
+//
+
+#ifndef CORE_VERIF_H
+#define CORE_VERIF_H
+
+#ifdef NNG_VERIF
+
+#include <stddef.h>
+#include <stdint.h>
+
+// Perturbation points: places where a pre-emption could really happen.
+enum nni_verif_site {
+	NNI_VP_MTX_LOCK = 0, // before acquiring a mutex
+	NNI_VP_MTX_UNLOCK,   // after releasing a mutex
+	NNI_VP_CV_WAIT,      // before waiting
+	NNI_VP_CV_WAKE,      // before waking
+	NNI_VP_AIO_START,    // before taking the expire queue lock in start
+	NNI_VP_AIO_ABORT_UNLOCKED,  // cancel fn swapped out, not yet called
+	NNI_VP_AIO_FINISH_UNLOCKED, // state final, task not yet dispatched
+	NNI_VP_AIO_EXPIRE_BEFORE_CANCEL,
+	NNI_VP_AIO_EXPIRE_BETWEEN, // between two aios of one expiry batch
+	NNI_VP_AIO_STOP_BEFORE_WAIT,
+	NNI_VP_TASK_BEFORE_ENQUEUE,
+	NNI_VP_TASK_BEFORE_CB,
+	NNI_VP_TASK_AFTER_CB,
+	NNI_VP_PIPE_CLOSE_FLAGGED,
+	NNI_VP_PIPE_REAP_BEFORE_CLOSE,
+	NNI_VP_PIPE_REAP_BEFORE_STOP,
+	NNI_VP_PIPE_REMOVE,
+	NNI_VP_PIPE_RUN_CB,
+	NNI_VP_SOCK_SHUTDOWN_EPS,
+	NNI_VP_SOCK_CLOSE_BEFORE_WAIT,
+	NNI_VP_REAP_BEFORE_FUNC,
+	NNI_VP_NSITES
+};
+
+// Trace / counter events.
+enum nni_verif_event {
+	NNI_VE_TASK_ENQ = 0, // task handed to a task queue or run inline
+	NNI_VE_TASK_DONE,    // its callback returned
+	NNI_VE_POLL_BEGIN,   // poller thread woke up with events
+	NNI_VE_POLL_END,     // poller thread about to wait again
+	NNI_VE_REAP_BEGIN,
+	NNI_VE_REAP_END,
+	NNI_VE_AIO_BEGIN,    // nni_aio_start returned true
+	NNI_VE_AIO_REFUSED,  // nni_aio_start returned false (a = result)
+	NNI_VE_AIO_FINISH,   // nni_aio_finish_impl (a = result)
+	NNI_VE_AIO_EXPIRE,   // expire loop picked an aio (a = result code)
+	NNI_VE_NEVENTS
+};
+
+extern void nni_verif_pt(int site);
+extern void nni_verif_ev(int ev, const void *obj, uintptr_t a, uintptr_t b);
+extern void nni_verif_fail(const char *prop, const char *fmt, ...);
+
+#define NNI_VERIF_PT(site) nni_verif_pt(site)
+#define NNI_VERIF_EV(ev, obj, a, b) \
+	nni_verif_ev(ev, obj, (uintptr_t) (a), (uintptr_t) (b))
+
+#else
+
+#define NNI_VERIF_PT(site) ((void) 0)
+#define NNI_VERIF_EV(ev, obj, a, b) ((void) 0)
+
+#endif // NNG_VERIF
+
+#endif // CORE_VERIF_H
